@@ -112,32 +112,7 @@ class BooleanExpression(Expression):
         )
 
     def __str__(self) -> str:
-        def _str(expression: Expression, parent_precedence: int) -> str:
-            if isinstance(expression, LogicalAndExpression):
-                precedence = PRECEDENCE_LOGICAL_AND
-                op = "and"
-                left = _str(expression.left, precedence)
-                right = _str(expression.right, precedence)
-            elif isinstance(expression, LogicalOrExpression):
-                precedence = PRECEDENCE_LOGICAL_OR
-                op = "or"
-                left = _str(expression.left, precedence)
-                right = _str(expression.right, precedence)
-            elif isinstance(expression, LogicalNotExpression):
-                operand_str = _str(expression.right, PRECEDENCE_PREFIX)
-                expr = f"not {operand_str}"
-                if parent_precedence > PRECEDENCE_PREFIX:
-                    return f"({expr})"
-                return expr
-            else:
-                return str(expression)
-
-            expr = f"{left} {op} {right}"
-            if precedence < parent_precedence:
-                return f"({expr})"
-            return expr
-
-        return _str(self.expression, 0)
+        return _str_logical(self.expression, 0)
 
     def evaluate(self, context: RenderContext) -> bool:
         return is_truthy(self.expression.evaluate(context))
@@ -174,7 +149,7 @@ class LogicalNotExpression(Expression):
         return isinstance(other, LogicalNotExpression) and self.right == other.right
 
     def __str__(self) -> str:
-        return f"not {self.right}"
+        return _str_logical(self, 0)
 
     def evaluate(self, context: RenderContext) -> object:
         return not is_truthy(self.right.evaluate(context))
@@ -207,7 +182,7 @@ class LogicalAndExpression(Expression):
         self.right = right
 
     def __str__(self) -> str:
-        return f"{self.left} and {self.right}"
+        return _str_logical(self, 0)
 
     def evaluate(self, context: RenderContext) -> object:
         return is_truthy(self.left.evaluate(context)) and is_truthy(
@@ -232,7 +207,7 @@ class LogicalOrExpression(Expression):
         self.right = right
 
     def __str__(self) -> str:
-        return f"{self.left} or {self.right}"
+        return _str_logical(self, 0)
 
     def evaluate(self, context: RenderContext) -> object:
         return is_truthy(self.left.evaluate(context)) or is_truthy(
@@ -257,7 +232,7 @@ class EqExpression(Expression):
         self.right = right
 
     def __str__(self) -> str:
-        return f"{self.left} == {self.right}"
+        return f"{_str_operand(self.left)} == {_str_operand(self.right)}"
 
     def evaluate(self, context: RenderContext) -> object:
         return _eq(self.left.evaluate(context), self.right.evaluate(context))
@@ -281,7 +256,7 @@ class NeExpression(Expression):
         self.right = right
 
     def __str__(self) -> str:
-        return f"{self.left} != {self.right}"
+        return f"{_str_operand(self.left)} != {_str_operand(self.right)}"
 
     def evaluate(self, context: RenderContext) -> object:
         return not _eq(self.left.evaluate(context), self.right.evaluate(context))
@@ -305,7 +280,7 @@ class LeExpression(Expression):
         self.right = right
 
     def __str__(self) -> str:
-        return f"{self.left} <= {self.right}"
+        return f"{_str_operand(self.left)} <= {_str_operand(self.right)}"
 
     def evaluate(self, context: RenderContext) -> object:
         left = self.left.evaluate(context)
@@ -330,7 +305,7 @@ class GeExpression(Expression):
         self.right = right
 
     def __str__(self) -> str:
-        return f"{self.left} >= {self.right}"
+        return f"{_str_operand(self.left)} >= {_str_operand(self.right)}"
 
     def evaluate(self, context: RenderContext) -> object:
         left = self.left.evaluate(context)
@@ -355,7 +330,7 @@ class LtExpression(Expression):
         self.right = right
 
     def __str__(self) -> str:
-        return f"{self.left} < {self.right}"
+        return f"{_str_operand(self.left)} < {_str_operand(self.right)}"
 
     def evaluate(self, context: RenderContext) -> object:
         return _lt(
@@ -382,7 +357,7 @@ class GtExpression(Expression):
         self.right = right
 
     def __str__(self) -> str:
-        return f"{self.left} > {self.right}"
+        return f"{_str_operand(self.left)} > {_str_operand(self.right)}"
 
     def evaluate(self, context: RenderContext) -> object:
         return _lt(
@@ -409,7 +384,7 @@ class ContainsExpression(Expression):
         self.right = right
 
     def __str__(self) -> str:
-        return f"{self.left} contains {self.right}"
+        return f"{_str_operand(self.left)} contains {_str_operand(self.right)}"
 
     def evaluate(self, context: RenderContext) -> object:
         return _contains(
@@ -425,6 +400,59 @@ class ContainsExpression(Expression):
 
     def children(self) -> list[Expression]:
         return [self.left, self.right]
+
+def _str_logical(
+    expression: Expression, parent_precedence: int, *, left: bool = False
+) -> str:
+    """Serialize a logical expression, with parentheses where grouping needs them.
+
+    `and` and `or` group from the right and `not` applies to everything that
+    follows it, so a logical expression that is the left operand of `and` or
+    `or` must have come from a parenthesized group.
+    """
+    if isinstance(expression, LogicalAndExpression):
+        precedence = PRECEDENCE_LOGICAL_AND
+        op = "and"
+    elif isinstance(expression, LogicalOrExpression):
+        precedence = PRECEDENCE_LOGICAL_OR
+        op = "or"
+    elif isinstance(expression, LogicalNotExpression):
+        expr = f"not {_str_logical(expression.right, PRECEDENCE_PREFIX)}"
+        return f"({expr})" if left else expr
+    else:
+        return str(expression)
+
+    left_str = _str_logical(expression.left, precedence, left=True)
+    right_str = _str_logical(expression.right, precedence)
+    expr = f"{left_str} {op} {right_str}"
+    if precedence < parent_precedence or left:
+        return f"({expr})"
+    return expr
+
+
+def _str_operand(expression: Expression) -> str:
+    """Serialize an operand of a comparison or membership operator.
+
+    An operand that is itself a logical, comparison or membership expression
+    must have come from a parenthesized group.
+    """
+    if isinstance(
+        expression,
+        (
+            LogicalAndExpression,
+            LogicalOrExpression,
+            LogicalNotExpression,
+            EqExpression,
+            NeExpression,
+            LeExpression,
+            GeExpression,
+            LtExpression,
+            GtExpression,
+            ContainsExpression,
+        ),
+    ):
+        return f"({expression})"
+    return str(expression)
 
 
 def parse_boolean_primitive(  # noqa: PLR0912
